@@ -227,7 +227,10 @@ theorem chkTars_good (oracle : Bytes → Bool) (b : Bytes) : Good b.length b.len
     rw [rdBE_ok b _ _ (by simp) (by simp; omega)]
     generalize fld b (0, tars_lenFieldSize) = n
     by_cases h2 : n < tars_minPackageLength ∨ n > tars_maxPackageLength
-    · simp only [h2, ↓reduceIte]; exact good_needMore _ _
+    · simp only [h2, ↓reduceIte]
+      split
+      · exact good_error _ _ _ (by omega)
+      · exact good_needMore _ _
     · simp only [h2, ↓reduceIte]
       by_cases h3 : b.length < n
       · simp only [h3, ↓reduceIte]; exact good_needMore _ _
